@@ -565,18 +565,12 @@ impl FseTable {
         }
     }
     
-    /// High 64 bits of 128-bit multiplication (portable version)
+    /// High 64 bits of the 128-bit product
     fn mul_hi(a: u64, b: u64) -> u64 {
-        let a_lo = a & 0xFFFFFFFF;
-        let a_hi = a >> 32;
-        let b_lo = b & 0xFFFFFFFF;
-        let b_hi = b >> 32;
-        
-        let x0 = b_lo * a_lo;
-        let x1 = (b_lo * a_hi) + (b_hi * a_lo) + (x0 >> 32);
-        let x2 = (b_hi * a_hi) + (x1 >> 32);
-        
-        x2
+        // The former four-multiplication version added b_lo*a_hi + b_hi*a_lo + carry in a u64: for a symbol
+        // with one slot (rcp_freq = !0) and a state >= 2^32 whose low word is large the sum wrapped and the
+        // encoder produced a state the decoder does not map back.
+        ((a as u128 * b as u128) >> 64) as u64
     }
     
     /// Encode symbol using rANS approach
